@@ -112,6 +112,13 @@ class CodedError(AppError):
 
 import asyncio  # noqa: E402
 
+class BadDetailsSyntaxError(SyntaxError):
+    """A SyntaxError whose details tuple is malformed: the standard library cannot format its traceback."""
+
+    def __init__(self, msg):
+        SyntaxError.__init__(self, msg, ("f", 1, "a", "text"))
+
+
 EXC_TABLE = [
     ValueError,
     KeyError,
@@ -133,6 +140,7 @@ EXC_TABLE = [
     FalsyError,
     BadStrBaseError,
     NoModuleError,
+    BadDetailsSyntaxError,
 ]
 BASE_ONLY = set(i for i, c in enumerate(EXC_TABLE) if not issubclass(c, Exception))
 
@@ -1356,6 +1364,9 @@ def _py_normal(py):
 def model_plain(node, json_mode=True):
     if node["kind"] == "msg":
         fields = dict((k, expected_value(v, json_mode)) for k, v in node["fields"].items())
+        if node.get("tb"):
+            # traceback text is not compared (neither eliot's nor one an extractor supplied)
+            fields.pop("traceback", None)
         return {"m": node["type"], "fields": fields, "tb": bool(node.get("tb"))}
     out = {
         "a": node["type"],
